@@ -1,7 +1,8 @@
-"""apply one mutant to /tmp/build_C09/eqsig/im.py, run check, restore"""
+"""Fault table of the C09 builder: apply one mutant to the scratch copy /tmp/build_C09 (cp -r /repo /tmp/build_C09),
+run `EQSIG_REPO=/tmp/build_C09 ./check C09` (quick), restore. Entries are (old, new) edits of eqsig/im.py or
+(path, old, new) for another file. usage: python c09_mut.py [names]   (default: all; ctl_* must exit 0, the rest 1)"""
 import subprocess, sys, shutil, os
-F='/tmp/build_C09/eqsig/im.py'
-ORIG=open('/repo/eqsig/im.py').read()
+ROOT='/tmp/build_C09/'
 M = {
  'arias_const': [("np.pi / (2 * 9.81) * cumulative_trapezoid", "np.pi / (2 * 9.8) * cumulative_trapezoid")],
  'arias_const2': [("np.pi / (2 * 9.81) * cumulative_trapezoid", "np.pi / (9.81) * cumulative_trapezoid")],
@@ -25,6 +26,26 @@ M = {
  'absvel_nodt': [("    vel_int = np.cumsum(abs_vel * asig.dt)", "    vel_int = np.cumsum(abs_vel)")],
  'uke_noabs': [("    cum_delta_energy = np.cumsum(abs(delta_energy))", "    cum_delta_energy = np.cumsum(delta_energy)")],
  'uke_half': [("    kin_energy = 0.5 * acc_signal.velocity * np.abs(acc_signal.velocity)", "    kin_energy = acc_signal.velocity * np.abs(acc_signal.velocity)")],
+ 'absvel_inplace': [("    abs_vel = abs(asig.velocity)\n", "    abs_vel = asig.velocity\n    np.abs(abs_vel, out=abs_vel)\n")],
+ 'cav_inplace_values': [("    abs_acc = np.abs(acc_sig.values)\n    return cumulative_trapezoid", "    abs_acc = np.abs(acc_sig.values, out=acc_sig.values)\n    return cumulative_trapezoid")],
+ 'arias_scratch': [("def _raw_calc_arias_intensity(acc, dt):\n    from scipy.integrate import cumulative_trapezoid\n    return np.pi / (2 * 9.81) * cumulative_trapezoid(acc ** 2, dx=dt, initial=0)", "_SCRATCH = {}\n\n\ndef _raw_calc_arias_intensity(acc, dt):\n    from scipy.integrate import cumulative_trapezoid\n    buf = _SCRATCH.setdefault(len(acc), np.zeros(len(acc)))\n    buf[:] = np.pi / (2 * 9.81) * cumulative_trapezoid(acc ** 2, dx=dt, initial=0)\n    return buf")],
+
+ # ---- audit round 2: one mutant per new workload class / clause
+ # any integer rate 1/k incl. the reciprocals above 250 that floor wrongly (old list stopped at k=198)
+ 'r2_cavdp_fine_step_floor': [("    points_per_sec = int(round(1 / asig.dt, 6))", "    points_per_sec = int(1 / asig.dt) if asig.dt < 0.004 else int(round(1 / asig.dt, 6))")],
+ # tail-heavy records: nothing qualifies in the first seconds
+ 'r2_cavdp_quiet_start': [("        cav_dp = cav_dp + (h * int_acc)", "        cav_dp = cav_dp + (h * int_acc if (i < 4 or cav_dp > 0) else 0)")],
+ # spike-dominated records (dynamic range > 1e7 inside one record)
+ 'r2_cav_relative_noise_floor': [("    abs_acc = np.abs(acc_sig.values)\n", "    abs_acc = np.abs(acc_sig.values)\n    abs_acc = np.where(abs_acc < 1e-7 * np.max(abs_acc), 0.0, abs_acc)\n")],
+ # purity over the whole instance state (a public attribute written by an analysis function)
+ 'r2_arias_cached_on_object': [("    return _raw_calc_arias_intensity(acc_sig.values, acc_sig.dt)", "    series = _raw_calc_arias_intensity(acc_sig.values, acc_sig.dt)\n    acc_sig.arias_intensity = series[-1]\n    return series")],
+ # ownership of the returned array
+ 'r2_isv_returns_stored_array': [("    return cumulative_trapezoid(acc_sig.velocity ** 2, dx=acc_sig.dt, initial=0)", "    acc_sig._isv = cumulative_trapezoid(acc_sig.velocity ** 2, dx=acc_sig.dt, initial=0)\n    return acc_sig._isv")],
+ # derived objects at the option values where nothing needs doing
+ 'r2_combine_angle0_returns_argument': [('eqsig/multiple.py', "def combine_at_angle(acc_sig_ns, acc_sig_we, angle):\n", "def combine_at_angle(acc_sig_ns, acc_sig_we, angle):\n    if angle == 0:\n        return acc_sig_ns\n")],
+ 'r2_interp_same_dt_returns_argument': [('eqsig/fns/time_step.py', "    acc_interp, dt_interp = interp_array_to_approx_dt(asig.values, asig.dt, target_dt=target_dt, even=even)\n", "    if target_dt == asig.dt:\n        return asig\n    acc_interp, dt_interp = interp_array_to_approx_dt(asig.values, asig.dt, target_dt=target_dt, even=even)\n")],
+ # object-level twin (deprecated generate_cumulative_stats attributes) must agree with the functions
+ 'r2_stats_cav_attribute': [('eqsig/single.py', "        self.cav = self.cav_series[-1]", "        self.cav = self.cav_series[-2] if len(self.cav_series) > 1 else self.cav_series[-1]")],
  # behaviour-preserving controls
  'ctl_cumsum_panels': [("    return cumulative_trapezoid(abs_acc, dx=acc_sig.dt, initial=0)", "    return np.concatenate([[0.0], np.cumsum(0.5 * acc_sig.dt * (abs_acc[1:] + abs_acc[:-1]))])")],
  'ctl_arias_cumsum_panels': [("np.pi / (2 * 9.81) * cumulative_trapezoid(acc ** 2, dx=dt, initial=0)", "np.pi / 19.62 * np.concatenate([[0.0], np.cumsum(0.5 * dt * (acc[1:] ** 2 + acc[:-1] ** 2))])")],
@@ -35,15 +56,19 @@ M = {
 }
 names = sys.argv[1:] or list(M)
 for name in names:
-    s = ORIG
-    for a, b in M[name]:
-        assert s.count(a) == 1, (name, s.count(a))
-        s = s.replace(a, b)
-    open(F, 'w').write(s)
+    files = {}
+    for e in M[name]:
+        path, a, b = ('eqsig/im.py',) + tuple(e) if len(e) == 2 else e
+        s = files.get(path) or open('/repo/' + path).read()
+        assert s.count(a) == 1, (name, path, s.count(a))
+        files[path] = s.replace(a, b)
+    for path, s in files.items():
+        open(ROOT + path, 'w').write(s)
     env = dict(os.environ, EQSIG_REPO='/tmp/build_C09', VERIF_SEED=os.environ.get('VERIF_SEED', '0'))
     p = subprocess.run(['./check', 'C09'], cwd='/verif', env=env, capture_output=True, text=True)
     lines = [l for l in p.stdout.splitlines() if 'violated=' in l and not l.rstrip().endswith('violated=0')]
-    print('%-24s exit=%d  %s' % (name, p.returncode, '; '.join(l.split()[1] + ' ' + l.split()[-1] for l in lines)[:400]))
+    print('%-36s exit=%d  %s' % (name, p.returncode, '; '.join(l.split()[1] + ' ' + l.split()[-1] for l in lines)[:400]))
     if p.returncode == 2:
         print('\n'.join(l for l in p.stdout.splitlines() if 'INCONCL' in l)[:1500])
-    open(F, 'w').write(ORIG)
+    for path in files:
+        shutil.copy('/repo/' + path, ROOT + path)
